@@ -331,7 +331,7 @@ def replay_engine(args):
 
 def check_engine(rep):
     if rep.tier == 'thorough':
-        passes = [(range(4, 13), 8, 4), (range(4, 9), 12, 3)]
+        passes = [(range(4, 13), 8, 4), (range(4, 9), 10, 3)]
     else:
         passes = [(range(4, 11), 7, 3)]
     tasks = []
